@@ -101,3 +101,16 @@ def flag_then_return(flag: str, t: float) -> str:
     _touch(flag)
     time.sleep(t)
     return 'done'
+
+
+def raise_cancelled(kind: str = 'asyncio'):
+    """the function itself raises an exception that is not an Exception: a CancelledError (asyncio's is a BaseException) or KeyboardInterrupt"""
+    if kind == 'asyncio':
+        import asyncio
+        raise asyncio.CancelledError('raised by the function')
+    if kind == 'futures':
+        import concurrent.futures
+        raise concurrent.futures.CancelledError('raised by the function')
+    if kind == 'keyboard':
+        raise KeyboardInterrupt('raised by the function')
+    raise GeneratorExit('raised by the function')
